@@ -6,7 +6,7 @@
 From Coq Require Import List ZArith Bool Arith Lia.
 From SC Require Import Base.Res Base.PyList Inst.Heap Inst.ClassTable Inst.Model Inst.Canon
   Inst.Abs Inst.SpecHelpers Inst.ElemProofs Inst.Framed Inst.RefineProofs Inst.CopyProofs Inst.ElemRefine
-  Inst.ElemRefine2 Inst.ElemRefine3 Inst.ElemRefine4 Inst.ElemRefine5.
+  Inst.ElemRefine2 Inst.ElemRefine3 Inst.ElemRefine4 Inst.ElemRefine5 Inst.ElemRefine6.
 Import ListNotations.
 Open Scope nat_scope.
 
@@ -341,6 +341,166 @@ Section Guarded.
 End Guarded.
 
 (* ------------------------------------------------------------------ *)
+(** * The guard of the copy-on-write calls *)
+
+(* flat receiver, not being initialised, of a class (frozen or not) without invalidated_by,
+   without do_not_copy and without __post_copy__ hook, whose attribute a is declared as a
+   list / dict / set and holds a container of scalars of that family (sharing allowed) *)
+Definition copy_guard (ct : ctable) (s : state) (l : loc) (a : aid) (kd : ckind) : bool :=
+  match nth_error (heap s) l with
+  | Some (OInst c d) =>
+      match lookup_cls ct c with
+      | Some k =>
+          match lookup_attr k a, assoc a d with
+          | Some sp, Some (VRef lc) =>
+              match nth_error (heap s) lc with
+              | Some o =>
+                  nodupb (map fst d) && negb (c_dnc k) && no_invalb k
+                  && (ty_depth (a_ty sp) <=? FUEL) && flat_fieldsb (heap s) d
+                  && match c_post_copy k with None => true | Some _ => false end
+                  && match assoc A_INITIALIZING d with None => true | Some _ => false end
+                  && negb (a =? A_INITIALIZING)
+                  && scalar_obj o && kind_ok kd (a_ty sp) o
+              | None => false
+              end
+          | _, _ => false
+          end
+      | None => false
+      end
+  | _ => false
+  end.
+
+Record copy_facts (ct : ctable) (s : state) (l : loc) (a : aid) (c : cid) (d : list (aid * val))
+       (k : cls) (sp : attr_spec) (lc : loc) (o : obj) : Prop := mkcf {
+  cf_l : nth_error (heap s) l = Some (OInst c d);
+  cf_c : lookup_cls ct c = Some k;
+  cf_a : lookup_attr k a = Some sp;
+  cf_d : NoDup (map fst d);
+  cf_dnc : c_dnc k = false;
+  cf_pc : c_post_copy k = None;
+  cf_ni : no_inval k;
+  cf_dep : ty_depth (a_ty sp) <= FUEL;
+  cf_fld : assoc a d = Some (VRef lc);
+  cf_lc : nth_error (heap s) lc = Some o;
+  cf_o : scalar_obj o = true;
+  cf_flat : flat_fields (heap s) d;
+  cf_init : assoc A_INITIALIZING d = None;
+  cf_a0 : a <> A_INITIALIZING }.
+
+Lemma copy_guard_sound ct s l a kd : copy_guard ct s l a kd = true ->
+  exists c d k sp lc o, copy_facts ct s l a c d k sp lc o /\ kind_ok kd (a_ty sp) o = true /\
+    attr_spec_of ct s l a = Some sp /\ attr_obj s l a = Some o.
+Proof.
+  unfold copy_guard, attr_spec_of, attr_obj, attr_cell. intro H.
+  destruct (nth_error (heap s) l) as [[| | |c d]|] eqn:El; try discriminate.
+  destruct (lookup_cls ct c) as [k|] eqn:Ec; try discriminate.
+  destruct (lookup_attr k a) as [sp|] eqn:Ea; try discriminate.
+  destruct (assoc a d) as [[| | | | | | | |lc]|] eqn:Ef; try discriminate.
+  destruct (nth_error (heap s) lc) as [o|] eqn:Eo; try discriminate.
+  repeat (apply andb_true_iff in H; destruct H as [H ?]).
+  exists c, d, k, sp, lc, o. split; [|auto].
+  constructor; auto.
+  - now apply nodupb_sound.
+  - now apply negb_true_iff.
+  - destruct (c_post_copy k); [discriminate|reflexivity].
+  - now apply no_invalb_sound.
+  - now apply Nat.leb_le.
+  - now apply flat_fieldsb_sound.
+  - destruct (assoc A_INITIALIZING d); [discriminate|reflexivity].
+  - apply Nat.eqb_neq. now apply negb_true_iff.
+Qed.
+
+Section GuardedCopy.
+  Variable ct : ctable.
+  Variable h0 : list obj.
+  Variable s : state.
+  Variables (l : loc) (a : aid).
+
+  Ltac cfacts kd H c d k sp lc o G Hk Hsp Hob :=
+    destruct (copy_guard_sound ct s l a kd H) as [c [d [k [sp [lc [o [G [Hk [Hsp Hob]]]]]]]]].
+
+  Theorem with_item_list_copy_guarded idx v ins :
+    copy_guard ct s l a KList = true -> plain_items ct s l a = true ->
+    vscalar v = true -> (idx = VMissing \/ exists i, idx = VInt i) ->
+    copy_refines_spec ct h0 s l (HWithItem a) (mkh [v] false true idx ins None None [] None)
+                      (SWithItem a) (mkah [abs0 v] false true (abs0 idx) ins None None [] None).
+  Proof.
+    intros H Hp Hv Hi. cfacts KList H c d k sp lc o G Hk Hsp Hob.
+    destruct (a_ty sp) as [| | | | | | |ity| |ity'|] eqn:Hty; try discriminate Hk.
+    destruct o as [xs| | |]; try discriminate Hk. destruct G as [Gl Gc Ga Gd Gdnc Gpc Gni Gdep Gfld Glc Go Gflat Ginit Ga0].
+    destruct (plain_items_facts ct s l a sp Hsp Hp) as [P1 P2]. rewrite Hty in P2. cbn [item_type] in P2.
+    exact (with_item_list_copy_refines ct h0 l a c d k sp s lc xs ity Gl Gc Ga Gd Gdnc Gpc Gni Hty
+             (depth_list sp ity Hty Gdep) Gfld Glc Go Gflat Ginit Ga0 idx v ins P1 P2 Hv Hi).
+  Qed.
+
+  Theorem without_item_list_copy_guarded voi bi :
+    copy_guard ct s l a KList = true -> nonref voi = true ->
+    copy_refines_spec ct h0 s l (HWithoutItem a) (mkh [voi] false true VMissing false bi None [] None)
+                      (SWithoutItem a) (mkah [abs0 voi] false true AMissing false bi None [] None).
+  Proof.
+    intros H Hv. cfacts KList H c d k sp lc o G Hk Hsp Hob.
+    destruct (a_ty sp) as [| | | | | | |ity| |ity'|] eqn:Hty; try discriminate Hk.
+    destruct o as [xs| | |]; try discriminate Hk. destruct G as [Gl Gc Ga Gd Gdnc Gpc Gni Gdep Gfld Glc Go Gflat Ginit Ga0].
+    exact (without_item_list_copy_refines ct h0 l a c d k sp s lc xs ity Gl Gc Ga Gd Gdnc Gpc Gni Hty
+             (depth_list sp ity Hty Gdep) Gfld Glc Go Gflat Ginit Ga0 voi bi Hv).
+  Qed.
+
+  Theorem with_item_dict_copy_guarded key v :
+    copy_guard ct s l a KDict = true -> plain_items ct s l a = true ->
+    nonref key = true -> vscalar v = true ->
+    copy_refines_spec ct h0 s l (HWithItem a) (mkh [key; v] false true VMissing false None None [] None)
+                      (SWithItem a) (mkah [abs0 key; abs0 v] false true AMissing false None None [] None).
+  Proof.
+    intros H Hp Hkey Hv. cfacts KDict H c d k sp lc o G Hk Hsp Hob.
+    destruct (a_ty sp) as [| | | | | | | |tk tv| |] eqn:Hty; try discriminate Hk.
+    destruct o as [|kvs| |]; try discriminate Hk. destruct G as [Gl Gc Ga Gd Gdnc Gpc Gni Gdep Gfld Glc Go Gflat Ginit Ga0].
+    destruct (plain_items_facts ct s l a sp Hsp Hp) as [P1 P2]. rewrite Hty in P2. cbn [item_type] in P2.
+    destruct (depth_dict sp tk tv Hty Gdep) as [D1 D2].
+    exact (with_item_dict_copy_refines ct h0 l a c d k sp s lc kvs tk tv Gl Gc Ga Gd Gdnc Gpc Gni Hty
+             D1 D2 Gfld Glc Go Gflat Ginit Ga0 key v P1 P2 Hkey Hv).
+  Qed.
+
+  Theorem without_item_dict_copy_guarded key :
+    copy_guard ct s l a KDict = true -> nonref key = true ->
+    copy_refines_spec ct h0 s l (HWithoutItem a) (mkh [key] false true VMissing false None None [] None)
+                      (SWithoutItem a) (mkah [abs0 key] false true AMissing false None None [] None).
+  Proof.
+    intros H Hkey. cfacts KDict H c d k sp lc o G Hk Hsp Hob.
+    destruct (a_ty sp) as [| | | | | | | |tk tv| |] eqn:Hty; try discriminate Hk.
+    destruct o as [|kvs| |]; try discriminate Hk. destruct G as [Gl Gc Ga Gd Gdnc Gpc Gni Gdep Gfld Glc Go Gflat Ginit Ga0].
+    exact (without_item_dict_copy_refines ct h0 l a c d k sp s lc kvs tk tv Gl Gc Ga Gd Gdnc Gpc Gni Hty
+             Gfld Glc Go Gflat Ginit Ga0 key Hkey).
+  Qed.
+
+  Theorem with_item_set_copy_guarded v :
+    copy_guard ct s l a KSet = true -> plain_items ct s l a = true ->
+    vscalar v = true -> set_key_free ct (list_of s l a) v = true ->
+    copy_refines_spec ct h0 s l (HWithItem a) (mkh [v] false true VMissing false None None [] None)
+                      (SWithItem a) (mkah [abs0 v] false true AMissing false None None [] None).
+  Proof.
+    intros H Hp Hv Hkf. cfacts KSet H c d k sp lc o G Hk Hsp Hob.
+    destruct (a_ty sp) as [| | | | | | |ity'| |ity|] eqn:Hty; try discriminate Hk.
+    destruct o as [| |xs|]; try discriminate Hk. destruct G as [Gl Gc Ga Gd Gdnc Gpc Gni Gdep Gfld Glc Go Gflat Ginit Ga0].
+    destruct (plain_items_facts ct s l a sp Hsp Hp) as [P1 P2]. rewrite Hty in P2. cbn [item_type] in P2.
+    rewrite (list_of_set s l a xs Hob) in Hkf.
+    exact (with_item_set_copy_refines ct h0 l a c d k sp s lc xs ity Gl Gc Ga Gd Gdnc Gpc Gni Hty
+             (depth_set sp ity Hty Gdep) Gfld Glc Go Gflat Ginit Ga0 v P1 P2 Hv Hkf).
+  Qed.
+
+  Theorem without_item_set_copy_guarded voi :
+    copy_guard ct s l a KSet = true -> nonref voi = true ->
+    copy_refines_spec ct h0 s l (HWithoutItem a) (mkh [voi] false true VMissing false None None [] None)
+                      (SWithoutItem a) (mkah [abs0 voi] false true AMissing false None None [] None).
+  Proof.
+    intros H Hv. cfacts KSet H c d k sp lc o G Hk Hsp Hob.
+    destruct (a_ty sp) as [| | | | | | |ity'| |ity|] eqn:Hty; try discriminate Hk.
+    destruct o as [| |xs|]; try discriminate Hk. destruct G as [Gl Gc Ga Gd Gdnc Gpc Gni Gdep Gfld Glc Go Gflat Ginit Ga0].
+    exact (without_item_set_copy_refines ct h0 l a c d k sp s lc xs ity Gl Gc Ga Gd Gdnc Gpc Gni Hty
+             Gfld Glc Go Gflat Ginit Ga0 voi Hv).
+  Qed.
+End GuardedCopy.
+
+(* ------------------------------------------------------------------ *)
 (** * A concrete class and receiver: xs : List[int], m : Dict[str, int], t : Set[int] *)
 
 Definition ex_list_sp : attr_spec := mkattr 1 (TList TInt) VMissing None 0 true false None None [].
@@ -354,3 +514,7 @@ Definition ex_state : state :=
         OList [VInt 1; VInt 0; VInt 1; VInt 0];
         ODict [(VStr 0, VInt 0); (VStr 7, VInt 1)];
         OSet [VInt 2; VInt 0]] 0 None.
+
+(* the same class declared frozen: copy-on-write calls work on it, in-place calls do not *)
+Definition ex_cls_frozen : cls := mkcls 0 [ex_list_sp; ex_dict_sp; ex_set_sp] true false None [0] 0 [] None None.
+Definition ex_ct_frozen : ctable := [ex_cls_frozen].
